@@ -44,6 +44,33 @@ Theorem C09_duplicate_ignored : forall D dt g,
 Proof. exact duplicate_ignored. Qed.
 Print Assumptions C09_duplicate_ignored.
 
+(* Several definitions in one string.  check_for_definitions is the fold of the
+   per-definition check over the definition groups of the string, in order: the only
+   thing carried from one definition to the next is the dictionary ... *)
+Theorem C09_check_for_definitions_fold : forall D f,
+  check_for_definitions D f = check_defs D (find_top_level_definitions f).
+Proof. exact check_for_definitions_fold. Qed.
+Print Assumptions C09_check_for_definitions_fold.
+
+(* ... so one string holding the definitions of two strings behaves as the two strings
+   one after the other (same dictionary, same issues) ... *)
+Theorem C09_check_for_definitions_split : forall D f1 f2,
+  check_for_definitions D (f1 ++ f2) =
+  let '(D1, i1) := check_for_definitions D f1 in
+  let '(D2, i2) := check_for_definitions D1 f2 in (D2, i1 ++ i2).
+Proof. exact check_for_definitions_split. Qed.
+Print Assumptions C09_check_for_definitions_split.
+
+(* ... and a definition gets, wherever it stands in its string, the verdict it gets
+   alone -- except that its name must not have been stored by a predecessor *)
+Theorem C09_verdict_in_string : forall D pre dt g post,
+  let Dp := fst (check_defs D pre) in
+  (acceptable [] dt g /\ mem_key (lower (def_name dt)) Dp = false <->
+   check_one Dp dt g = (new_dict Dp dt g, [])) /\
+  fst (check_defs D (pre ++ (dt, g) :: post)) = fst (check_defs (fst (check_one Dp dt g)) post).
+Proof. exact verdict_in_string. Qed.
+Print Assumptions C09_verdict_in_string.
+
 (* every stored entry is well formed (no definition tags inside, a placeholder
    tag present when it takes a value): the hypothesis of the theorems below is
    what acceptance guarantees *)
